@@ -78,7 +78,7 @@ def concreteCodec (m : KeyMode) (cvTab : List (Nat × Option Nat)) : Codec PKey 
 md5 digest as supplied by `hashlib` — `pickle.dumps` of `(1,)`, `'a'`, `(2, 'b')`. -/
 def mainPool : List PKey :=
   [.atom (.str "a"), .atom (.str "b"), .atom (.str "k1"), .atom (.str "x_y"), .atom (.str "K"), .atom (.str "Q 7"),
-   .atom (.str "z.z"), .atom (.str "Q7"), .atom (.str "p-q"), .atom (.str "2024-01-15"),
+   .atom (.str "z.z"), .atom (.str "Q7"), .atom (.str "TASK_1"), .atom (.str "K_K_a"), .atom (.str "p-q"), .atom (.str "2024-01-15"),
    .atom (.str "LLLLLLLLLLLLLLLLLLLLLLLLLLLLLLLLLLLLLLLLLLLLLLLLLLLLLLLLLLLLLLLLLLLLLLLLLLLLLLLLLLLLLLLLLLLLLLLLLLLLLLLLLLLLLLLLLLLLLLLLLLLLLLLLLLLLLLLLLLLLLLLLLLLLLLLLLLLLLLLLLLLLLLLLLLLLLLLLLLLLLLLLLLLLLLLLLLLLLLLLLLLLLLLLLLLLLLLLLLLLLLLLLLLLLLLLLLLLLLLLLLLLLa"), .atom (.str "LLLLLLLLLLLLLLLLLLLLLLLLLLLLLLLLLLLLLLLLLLLLLLLLLLLLLLLLLLLLLLLLLLLLLLLLLLLLLLLLLLLLLLLLLLLLLLLLLLLLLLLLLLLLLLLLLLLLLLLLLLLLLLLLLLLLLLLLLLLLLLLLLLLLLLLLLLLLLLLLLLLLLLLLLLLLLLLLLLLLLLLLLLLLLLLLLLLLLLLLLLLLLLLLLLLLLLLLLLLLLLLLLLLLLLLLLLLLLLLLLLLLLb"),
    .atom (.int 7), .atom (.int 12), .atom (.int (-3)), .atom (.int 0),
    .tup [.int 1, .int 2], .tup [.str "a", .int 3], .tup [.int 5], .tup [], .tup [.str "x", .str "y"],
